@@ -96,6 +96,10 @@ def gen(ctx, q):
                 ns = lengths_for(name, q, rng)
                 if "ALAC" in name and ch == 8 and not q:
                     ns = ns + [5000]
+                elif not q and ch > 2:
+                    ns = [x for x in ns if x <= 600]        # (the long files are written with 1 and 2 channels; 3 and 8 channels add the interleave, not length)
+                if not q and (f >> 28) != 0 and ch > 1:
+                    ns = [x for x in ns if x <= 70]         # explicit-endian variants: the byte order is per sample
                 for n in ns:
                     if q and (vlib.dhash((f, ch, t, n, ctx.seed)) % 3 == 0) and n not in (0, 1):
                         continue
